@@ -243,18 +243,32 @@ Qed.
 (* ---- DFXP: effective layout fallback ---------------------------------------------------------------------- *)
 (* node level first, then caption level, then language level; a layout that creates no region (or nothing at all)
    lands in the default region *)
+Definition pick (f : layout -> layout) (l c n : option layout) : layout :=
+  match spec_effective l c n with
+  | Some x => if layout_truthy x then (if has_region x then f x else spec_default_read) else spec_default_read
+  | None => spec_default_read
+  end.
+
+Lemma choice_pick : forall f l c n,
+  pick f l c n =
+  match dfxp_choice None l c n with
+  | Some e => if layout_truthy e && has_region e then f e else spec_default_read
+  | None => spec_default_read
+  end.
+Proof.
+  intros f l c n. unfold pick, spec_effective, dfxp_choice, opt_layout_truthy.
+  destruct n as [n|], c as [c|], l as [l|]; cbn iota beta;
+    repeat (match goal with |- context [layout_truthy ?x] => destruct (layout_truthy x) eqn:? end; cbn iota beta);
+    cbn [andb]; try reflexivity; try congruence.
+Qed.
+
 Theorem dfxp_choice_is_spec : forall l c n,
   expected_effective l c n =
   match dfxp_choice None l c n with
   | Some e => if layout_truthy e && has_region e then spec_read_back e else spec_default_read
   | None => spec_default_read
   end.
-Proof.
-  intros l c n. unfold expected_effective, spec_effective, dfxp_choice, opt_layout_truthy.
-  destruct n as [n|], c as [c|], l as [l|]; cbn iota beta;
-    repeat (match goal with |- context [layout_truthy ?x] => destruct (layout_truthy x) eqn:? end; cbn iota beta);
-    cbn [andb]; try reflexivity; try congruence.
-Qed.
+Proof. intros l c n. exact (choice_pick spec_read_back l c n). Qed.
 
 Theorem dfxp_choice_priority : forall g l c n,
   (opt_layout_truthy n = true -> dfxp_choice g l c n = n)
@@ -484,3 +498,38 @@ Qed.
 
 Theorem dfxp_default_roundtrip : read_region (layout_attrs dfxp_default_region) = Ok spec_default_read.
 Proof. reflexivity. Qed.
+
+(* the check's oracle (values within 1/200 of the exact ones, defaults filled) accepts what the model reads back *)
+Lemma size_close_round2 : forall z a, size_equiv z (round2 a) -> size_close z a = true.
+Proof.
+  intros z a [Hv Hu]. unfold size_close. cbn [round2 s_val s_unit] in Hv, Hu. rewrite Hu.
+  assert (E : unit_eqb (s_unit a) (s_unit a) = true) by (apply unit_eqb_eq; reflexivity). rewrite E. cbn [andb].
+  unfold q_close_tol, tol200. apply Qle_bool_iff. rewrite Hv. pose proof (hundredths_close (s_val a)) as H. lra.
+Qed.
+
+Theorem ok_effective_model : forall l c n e,
+  dfxp_choice None l c n = Some e -> layout_truthy e = true -> has_region e = true -> nonneg_layout e ->
+  exists r, read_region (layout_attrs e) = Ok r /\ ok_effective l c n (Some r) = true.
+Proof.
+  intros l c n e H T R N. destruct (dfxp_attr_roundtrip e N) as (r & Hr & Q). exists r. split; [exact Hr|].
+  unfold ok_effective.
+  assert (X : expected_effective_exact l c n = spec_fill_defaults e).
+  { change (expected_effective_exact l c n) with (pick spec_fill_defaults l c n). rewrite choice_pick, H, T, R. reflexivity. }
+  rewrite X. destruct Q as (Qo & Qe & Qp & Qa). unfold layout_close, spec_fill_defaults, spec_read_back in *.
+  cbn [l_origin l_extent l_padding l_alignment] in *.
+  assert (Ho : opt_eqb (fun p q => size_close (p_x p) (p_x q) && size_close (p_y p) (p_y q)) (l_origin r) (l_origin e) = true).
+  { destruct (l_origin r) as [p|], (l_origin e) as [q|]; cbn [option_map opt_rel opt_eqb] in *; try contradiction; [|reflexivity].
+    destruct Qo as [Q1 Q2]. cbn [p_x p_y] in *. rewrite (size_close_round2 _ _ Q1), (size_close_round2 _ _ Q2). reflexivity. }
+  assert (He : opt_eqb (fun p q => size_close (st_h p) (st_h q) && size_close (st_v p) (st_v q)) (l_extent r) (l_extent e) = true).
+  { destruct (l_extent r) as [p|], (l_extent e) as [q|]; cbn [option_map opt_rel opt_eqb] in *; try contradiction; [|reflexivity].
+    destruct Qe as [Q1 Q2]. cbn [st_h st_v] in *. rewrite (size_close_round2 _ _ Q1), (size_close_round2 _ _ Q2). reflexivity. }
+  assert (Hp : opt_eqb (fun p q => size_close (pd_before p) (pd_before q) && size_close (pd_after p) (pd_after q)
+                                   && size_close (pd_start p) (pd_start q) && size_close (pd_end p) (pd_end q))
+                       (l_padding r) (l_padding e) = true).
+  { destruct (l_padding r) as [p|], (l_padding e) as [q|]; cbn [option_map opt_rel opt_eqb] in *; try contradiction; [|reflexivity].
+    destruct Qp as (Q1 & Q2 & Q3 & Q4). cbn [pd_before pd_after pd_start pd_end] in *.
+    rewrite (size_close_round2 _ _ Q1), (size_close_round2 _ _ Q2), (size_close_round2 _ _ Q3), (size_close_round2 _ _ Q4). reflexivity. }
+  rewrite Ho, He, Hp. cbn [andb].
+  destruct (l_alignment r) as [ar|]; cbn [opt_rel opt_eqb] in *; [|contradiction].
+  apply alignment_eqb_iff. exact Qa.
+Qed.
